@@ -186,7 +186,7 @@ public:
         auto dir = QDir(baseDir());
         auto maxIndex = 0;
 
-        const auto entries = dir.entryList(QDir::Files);
+        const auto entries = dir.entryList(QDir::Files | QDir::Hidden);
         for (const QString &entry : entries) {
             auto match = re.match(entry);
             if (match.hasMatch()) {
@@ -263,7 +263,7 @@ public:
         auto dir = QDir(baseDir());
         auto result = QStringList();
 
-        const auto entries = dir.entryList(QDir::Files, QDir::Name);
+        const auto entries = dir.entryList(QDir::Files | QDir::Hidden, QDir::Name);
         for (const QString &entry : entries) {
             if (re.match(entry).hasMatch()) {
                 result.append(dir.filePath(entry));
